@@ -94,3 +94,27 @@ Example C12_example :
   retry_run 3 nd o 1 =
   ([RBody 1; REmitFail 1 EB; RSleep 3; RBody 2; REmitFail 2 EB; RSleep 3; RBody 3], Some (RRVal (VInt 7))).
 Proof. reflexivity. Qed.
+
+(* ---- kind F: all plain programs, all schedules ------------------------------------------------------------------------------ *)
+From MLPE Require Import Engine.Run Pure.Retry Proofs.PlainWorld Proofs.PlainLive Proofs.PlainCore Proofs.PlainValues.
+
+(* (7) inside a pipeline: for EVERY plain program and EVERY schedule, the result stored for a node is what the retry loop of (1)-(3)
+       yields for the node's body applied to the keyword arguments assembled from the final results of its inputs: the value the
+       loop returns, or get_default of those arguments when the loop ends in the default; a node whose loop ends in an exception has
+       no stored result.  (Kind F; the frames FRetry* of the engine model are related to [retry_run] by Proofs/PlainValues.v.) *)
+Theorem C12_on_plain_programs_results_follow_the_retry_policy :
+  forall P, plain_prog P -> NoDup (p_order P (maind P)) ->
+  forall st m, reachable P st -> over st = false -> main_done st = false -> exists_result m (st_store st) = true ->
+    exists kw, node_kwargs P st m = Some kw /\
+      forall fuel r, snd (retry_run fuel (nspec_of P (real_index m)) (fun a => p_body P (real_index m) kw (Nat.pred a)) 1) = Some r ->
+        (r = RRVal (get_result m true (st_store st))) \/
+        (r = RRDefault /\ get_result m true (st_store st) = VDef (real_index m) kw).
+Proof.
+  intros P HP Hnd st m Hr Ho Hm Hres.
+  destruct (plain_results_are_prescribed P HP Hnd st m Hr (conj Ho Hm) Hres) as [[kw [Hk Hok]] _].
+  exists kw. split; [exact Hk|]. intros fuel r Hrun. pose proof (retry_run_rr _ _ _ _ _ Hrun) as Hrr.
+  destruct Hok as [H|[H E]].
+  - left. exact (rr_functional _ _ _ _ Hrr _ H).
+  - right. split; [exact (rr_functional _ _ _ _ Hrr _ H)|exact E].
+Qed.
+Print Assumptions C12_on_plain_programs_results_follow_the_retry_policy.
